@@ -720,6 +720,8 @@ class Evaluator:
             handled, val = self._container_call(n)
             if handled:
                 return val
+        if name == "repr" and len(n.args) == 1 and not n.keywords:
+            return render(self.ev(n.args[0]), False)
         if name == "hash" and len(n.args) == 1:
             v = self.ev(n.args[0])
             if isinstance(v, (Sym, Lin, Vec)):
